@@ -668,6 +668,18 @@ pub fn compute_op_emission_index_digest(entries: &[OpEmissionEntry]) -> Hash {
     h.finalize().into()
 }
 
+/// Verification hooks (feature `echo_verif`): the canonical state root of an arbitrary state.
+#[cfg(feature = "echo_verif")]
+pub mod verif {
+    use super::{Hash, NodeKey, WarpState};
+
+    /// `compute_state_root(state, root)` exactly as commits compute it.
+    #[must_use]
+    pub fn state_root(state: &WarpState, root: &NodeKey) -> Hash {
+        super::compute_state_root(state, root)
+    }
+}
+
 #[cfg(test)]
 mod tests {
     use super::*;
